@@ -18,8 +18,8 @@
 (* result) is certified per run and reported as NOTE lines.                                    *)
 EXTENDS C17Forward, FiniteSets, TLC, Json, IOUtils
 
-VARIABLES l, cs, nouts, xouts
-vars == <<l, cs, nouts, xouts>>
+VARIABLES l, cs
+vars == <<l, cs>>
 Tr == ndJsonDeserialize(IOEnv.TRACE)
 Ev == Tr[l]
 ZDim == IF IOEnv.Z = "1" THEN 3 ELSE 2
@@ -76,10 +76,10 @@ ArrClause(x, enc, emptyOK, dflt) ==
 
 (* ------------------------------------------------------------------ header, cell self-test *)
 THdr == /\ Ev.e = "Hdr"
-        /\ UNCHANGED <<cs, nouts, xouts>>
+        /\ UNCHANGED cs
         /\ Chk(Ev.z = ZDim - 2, "HARNESS", "z_flag", Ev.z)
 TCells == /\ Ev.e = "Cells"
-          /\ UNCHANGED <<cs, nouts, xouts>>
+          /\ UNCHANGED cs
           /\ LET bad == {i \in 1..Len(Ev.x) : LET n == Ev.x[i][1] IN
                             ~(ICell(n) = Ev.x[i][2] /\ DCell(n) = Ev.x[i][3] /\ IVal(Ev.x[i][2]) = n /\ DVal(Ev.x[i][3]) = n)}
              IN Chk(bad = {}, "HARNESS", "cell_model", bad)
@@ -87,7 +87,7 @@ TCells == /\ Ev.e = "Cells"
 (* ------------------------------------------------------------------ layout events *)
 TLay ==
   /\ Ev.e = "Lay"
-  /\ UNCHANGED <<cs, nouts, xouts>>
+  /\ UNCHANGED cs
   /\ LET ps == Ev.ps
          dimok == L64!PathsOK(ps)
      IN IF ~dimok THEN Report("HARNESS", "vertex_dim", Ev.id)
@@ -98,7 +98,7 @@ TLay ==
                 /\ Chk(Ev.back = ne, "C17", "roundtrip", <<Ev.id, Ev.kind, Ev.via>>)
 TCvt ==
   /\ Ev.e = "Cvt"
-  /\ UNCHANGED <<cs, nouts, xouts>>
+  /\ UNCHANGED cs
   /\ LET a == Ev.arr.cells
          whole == Ev.via \in {"T", "D64"}
          wf == IF whole THEN Len(a) >= 2 /\ CntK(Ev.kind, a[1]) = Len(a) /\ DecEndK(Ev.kind, a) = Len(a) + 1
@@ -111,21 +111,21 @@ TCvt ==
              IN Chk(Ev.back = exp, "C17", "convert_layout", <<Ev.id, Ev.kind, Ev.via>>)
 TLayT ==
   /\ Ev.e = "LayT"
-  /\ UNCHANGED <<cs, nouts, xouts>>
+  /\ UNCHANGED cs
   /\ IF ~L64!TreeOK(Ev.t) THEN Report("HARNESS", "vertex_dim", Ev.id)
      ELSE LET c == ArrClause(Ev.arr, EncTreeK(Ev.kind, Ev.t), Len(Ev.t) = 0, "tree_layout")
           IN Chk(c = "ok", "C17", c, <<Ev.id, Ev.kind>>)
 
 (* ------------------------------------------------------------------ forwarding events *)
+(* The state carries only the position of the current Case and the number of NOut / XOut events seen (they follow the *)
+(* Case contiguously); their contents are analysed once, at the Runs event, straight from the trace.                   *)
 TCase ==
   /\ Ev.e = "Case"
-  /\ nouts' = <<>> /\ xouts' = <<>>
   /\ IF Ev.fn \notin FnNames THEN cs' = <<>> /\ Report("HARNESS", "unknown_function", Ev.fn)
      ELSE LET F == FnRec(Ev.fn)  kind == F.kind
               dimok == L64!PathsOK(Ev.na) /\ L64!PathsOK(Ev.nb) /\ L64!PathsOK(Ev.nc)
               First(ps) == IF Len(ps) = 0 THEN <<>> ELSE ps[1]
-          IN /\ cs' = [fn |-> Ev.fn, g |-> Ev.g, id |-> Ev.id, F |-> F, kind |-> kind, nst |-> Strides(F.n), xst |-> Strides(F.x),
-                       sl |-> FwdSlots(F), cn |-> FwdConst(F)]
+          IN /\ cs' = [fn |-> Ev.fn, g |-> Ev.g, id |-> Ev.id, c0 |-> l, nn |-> 0, nx |-> 0]
              /\ Chk(dimok, "HARNESS", "vertex_dim", Ev.g)
              /\ dimok =>
                   IF Ev.single = 1
@@ -140,22 +140,21 @@ TCase ==
 
 TNOut ==
   /\ Ev.e = "NOut"
-  /\ Ev.k = Len(nouts) + 1
-  /\ UNCHANGED <<cs, xouts>>
-  /\ LET kind == cs.kind
-         ok == (IF Ev.t = 1 THEN L64!TreeOK(Ev.a) ELSE L64!PathsOK(Ev.a)) /\ L64!PathsOK(Ev.b)
-     IN IF ~ok THEN nouts' = Append(nouts, [ok |-> -1]) /\ Report("HARNESS", "vertex_dim", Ev.k)
-        ELSE nouts' = Append(nouts,
-               [ok |-> Ev.ok,
-                enca |-> IF Ev.t = 1 THEN EncTreeK(kind, Ev.a) ELSE EncPathsK(kind, Ev.a),
-                aempty |-> IF Ev.t = 1 THEN Len(Ev.a) = 0 ELSE L64!NonEmpty(Ev.a) = <<>>,
-                encb |-> EncPathsK(kind, Ev.b),
-                bempty |-> L64!NonEmpty(Ev.b) = <<>>])
+  /\ cs # <<>> /\ cs.nx = 0 /\ Ev.k = cs.nn + 1 /\ l = cs.c0 + Ev.k
+  /\ cs' = [cs EXCEPT !.nn = Ev.k]
 TXOut ==
   /\ Ev.e = "XOut"
-  /\ Ev.j = Len(xouts) + 1
-  /\ UNCHANGED <<cs, nouts>>
-  /\ xouts' = Append(xouts, [ret |-> Ev.ret, a |-> Ev.a, b |-> Ev.b])
+  /\ cs # <<>> /\ Ev.j = cs.nx + 1 /\ l = cs.c0 + cs.nn + Ev.j
+  /\ cs' = [cs EXCEPT !.nx = Ev.j]
+(* a native result as the cells its export must consist of *)
+AnalyseN(ev, kind) ==
+  LET ok == (IF ev.t = 1 THEN L64!TreeOK(ev.a) ELSE L64!PathsOK(ev.a)) /\ L64!PathsOK(ev.b)
+  IN IF ~ok THEN [ok |-> -1]
+     ELSE [ok |-> ev.ok,
+           enca |-> IF ev.t = 1 THEN EncTreeK(kind, ev.a) ELSE EncPathsK(kind, ev.a),
+           aempty |-> IF ev.t = 1 THEN Len(ev.a) = 0 ELSE L64!NonEmpty(ev.a) = <<>>,
+           encb |-> EncPathsK(kind, ev.b),
+           bempty |-> L64!NonEmpty(ev.b) = <<>>]
 
 (* one exported result against one native result: "ok" or the failing clause *)
 Judge(x, n) ==
@@ -165,46 +164,60 @@ Judge(x, n) ==
   ELSE LET ca == ArrClause(x.a, n.enca, n.aempty, "mismatch")
        IN IF ca # "ok" THEN ca ELSE ArrClause(x.b, n.encb, n.bempty, "mismatch")
 
-Clauses == {"forward_mismatch", "inflate_rs_in_pc_slot", "inflateD_arc_tolerance_unscaled", "return_code", "length_field", "alloc_vs_length"}
+Clauses == {"forward_mismatch", "inflate_delta_zero_not_shortcut", "inflate_rs_in_pc_slot", "inflateD_arc_tolerance_unscaled", "return_code", "length_field", "alloc_vs_length"}
 
 TRuns ==
   /\ Ev.e = "Runs"
-  /\ UNCHANGED <<cs, nouts, xouts>>
-  /\ LET F == cs.F
+  /\ UNCHANGED cs
+  /\ cs # <<>> /\ l = cs.c0 + cs.nn + cs.nx + 1
+  /\ LET F == FnRec(cs.fn)
          NX == Size(F.x)  NN == Size(F.n)
+         nst == Strides(F.n)  xst == Strides(F.x)  sl == FwdSlots(F)  cn == FwdConst(F)
+         nouts == TLCEval([k \in 1..cs.nn |-> AnalyseN(Tr[cs.c0 + k], F.kind)])
+         xouts == [j \in 1..cs.nx |-> Tr[cs.c0 + cs.nn + j]]
          shape == Len(Ev.xj) = NX /\ Len(Ev.nk) = NN /\ Ev.fn = cs.fn /\ Ev.g = cs.g
-                  /\ (\A i \in 1..NX : Ev.xj[i] \in 1..Len(xouts)) /\ (\A i \in 1..NN : Ev.nk[i] \in 1..Len(nouts))
+                  /\ (\A i \in 1..NX : Ev.xj[i] \in 1..cs.nx) /\ (\A i \in 1..NN : Ev.nk[i] \in 1..cs.nn)
      IN IF ~shape THEN Report("HARNESS", "runs_shape", Ev.g)
         ELSE
-        LET XA(n) == TupleAt(F.x, cs.xst, n)
-            NA(n) == ForwardV(cs.sl, cs.cn, XA(n))                       \* the native call this exported call stands for
-            NkAt(na) == Ev.nk[IndexOf(F.n, cs.nst, na) + 1]
+        LET XA(n) == TupleAt(F.x, xst, n)
+            NP == Len(F.n)
+            (* kx[n + 1] = 0-based index, in the native product, of the native call that exported call n stands for: *)
+            (* C17Forward!ForwardV applied to the n-th tuple of the exported product (TLCEval: evaluate once, keep)   *)
+            kx == TLCEval([n \in 1..NX |-> IndexOf(F.n, nst, ForwardV(sl, cn, XA(n - 1)))])
+            NRes(k) == nouts[Ev.nk[k + 1]]
             XOf(n) == xouts[Ev.xj[n + 1]]
-            J(n) == Judge(XOf(n), nouts[NkAt(NA(n))])
+            J(n) == Judge(XOf(n), NRes(kx[n + 1]))
             bad == {n \in 0..(NX - 1) : J(n) # "ok"}
             spc == NSlot(F, "pc")  srs == NSlot(F, "rs")  satu == NSlot(F, "atu")
             infl == F.cls \in {"infl", "infl1"}
-            Dev(na, pcv, rsv, atuv) == [i \in 1..Len(na) |-> IF i = spc THEN pcv ELSE IF i = srs THEN rsv ELSE IF i = satu THEN atuv ELSE na[i]]
-            Like(n, na2) == Judge(XOf(n), nouts[NkAt(na2)]) = "ok"
+            Digit(k, i) == (k \div nst[i]) % Len(F.n[i].d)
+            Val(k, i) == F.n[i].d[Digit(k, i) + 1]
+            (* index of the native tuple that differs from tuple k exactly by parameter i := v (i = 0: no change) *)
+            With(k, i, v) == IF i = 0 THEN k ELSE k + (Pos(F.n[i].d, v) - 1 - Digit(k, i)) * nst[i]
+            Dev(k, pcv, rsv, atuv) == With(With(With(k, spc, pcv), srs, rsv), satu, atuv)
+            Like(n, k2) == Judge(XOf(n), NRes(k2)) = "ok"
             ClausesOf(n) ==
-              LET j == J(n)  na == NA(n) IN
+              LET j == J(n)  k == kx[n + 1] IN
               IF j # "mismatch" THEN {j}
               ELSE IF ~infl THEN {"forward_mismatch"}
-              ELSE LET rs == na[srs]
-                       s4 == rs = 1 /\ Like(n, Dev(na, 1, 0, 0))
-                       at == satu > 0 /\ Like(n, Dev(na, 0, rs, 1))
-                       both == satu > 0 /\ rs = 1 /\ Like(n, Dev(na, 1, 0, 1))
+              ELSE IF Val(k, NSlot(F, "delta")) = 0 THEN {"inflate_delta_zero_not_shortcut"}     \* class predicate: Inflate*, delta = 0
+              ELSE LET rs == Val(k, srs)
+                       s4 == rs = 1 /\ Like(n, Dev(k, 1, 0, 0))
+                       at == satu > 0 /\ Like(n, Dev(k, 0, rs, 1))
+                       both == satu > 0 /\ rs = 1 /\ Like(n, Dev(k, 1, 0, 1))
                        c == (IF s4 \/ both THEN {"inflate_rs_in_pc_slot"} ELSE {}) \cup (IF at \/ both THEN {"inflateD_arc_tolerance_unscaled"} ELSE {})
                    IN IF c = {} THEN {"forward_mismatch"} ELSE c
             (* non-vacuity: does changing native parameter i (alone) change the native result of run n ? *)
-            Sens(n, i) == LET na == NA(n)  kb == NkAt(na)
-                          IN \E p \in 1..Len(F.n[i].d) :
-                               LET v == F.n[i].d[p]  k2 == NkAt([na EXCEPT ![i] = v])
-                               IN v # na[i] /\ k2 # kb /\ nouts[k2] # nouts[kb]
-            sens == [i \in 1..Len(F.n) |-> Cardinality({n \in 0..(NX - 1) : Sens(n, i)})]
-            nt == Cardinality({n \in 0..(NX - 1) : LET nr == nouts[NkAt(NA(n))] IN
-                                 (~nr.aempty \/ ~nr.bempty) /\ \E i \in 1..Len(F.n) : cs.sl[i] > 0 /\ Sens(n, i)})
-        IN /\ Chk(Ev.litbad = 0, "HARNESS", "native_recipe_differs_from_InflatePaths", <<Ev.g, Ev.litbad, Ev.litn>>)
+            Sens(n, i) == LET k == kx[n + 1]  dg == Digit(k, i)  kb == Ev.nk[k + 1]
+                          IN \E p \in 0..(Len(F.n[i].d) - 1) :
+                               /\ p # dg
+                               /\ LET k2 == Ev.nk[k + (p - dg) * nst[i] + 1] IN k2 # kb /\ nouts[k2] # nouts[kb]
+            sm == TLCEval([n \in 1..NX |-> {i \in 1..NP : Sens(n - 1, i)}])
+            sens == [i \in 1..NP |-> Cardinality({n \in 1..NX : i \in sm[n]})]
+            nt == Cardinality({n \in 1..NX : LET nr == NRes(kx[n]) IN
+                                 (~nr.aempty \/ ~nr.bempty) /\ \E i \in sm[n] : sl[i] > 0})
+        IN /\ Chk(\A k \in 1..cs.nn : nouts[k].ok # -1, "HARNESS", "vertex_dim", Ev.g)
+           /\ Chk(Ev.litbad = 0, "HARNESS", "native_recipe_differs_from_InflatePaths", <<Ev.g, Ev.litbad, Ev.litn>>)
            /\ Note("SENS", <<cs.fn, cs.id, NX, nt, [i \in 1..Len(F.n) |-> <<F.n[i].n, sens[i]>>]>>)
            /\ IF bad = {} THEN TRUE
               ELSE \A c \in Clauses :
@@ -215,11 +228,11 @@ TRuns ==
 
 TCrash ==
   /\ Ev.e = "Crash"
-  /\ cs' = <<>> /\ nouts' = <<>> /\ xouts' = <<>>
+  /\ cs' = <<>>
   /\ IF Ev.ph = "export" THEN Report("C17", "crash_in_export_call", <<Ev.fn, Ev.g, Ev.args>>)
-     ELSE Report("HARNESS", "native_crash", <<Ev.fn, Ev.g, Ev.args>>)
+     ELSE Report("HARNESS", IF Ev.ph = "native" THEN "native_crash" ELSE "crash_outside_monitored_call", <<Ev.fn, Ev.g, Ev.args>>)
 
-Init == l = 1 /\ cs = <<>> /\ nouts = <<>> /\ xouts = <<>>
+Init == l = 1 /\ cs = <<>>
 Next == /\ l <= Len(Tr)
         /\ l' = l + 1
         /\ (THdr \/ TCells \/ TLay \/ TCvt \/ TLayT \/ TCase \/ TNOut \/ TXOut \/ TRuns \/ TCrash)
